@@ -126,6 +126,32 @@ func c58(c *Ctx) {
 			c.Unreachable(r, "insecure+requiring-creds-rejected", insecure, requires)
 		}
 		c.Expect(n > 0, nil, f, "has-success-return", "validateTransportCredentials has no success return")
+		// the credentials whose security protocol is inspected are the ones in effect: the explicit transport credentials when set,
+		// otherwise the bundle's; every configured per-RPC credential is asked (the walk is never left early)
+		fTC := c.field(tr, "ConnectOptions", "TransportCredentials")
+		for _, ci := range callsIn(f, Callee(creds, "TransportCredentials.Info")) {
+			ph, isPhi := ci.Common().Value.(*ssa.Phi)
+			okSel := false
+			if isPhi && len(ph.Edges) == 2 {
+				nF, nB := 0, 0
+				for i, e := range ph.Edges {
+					pr := ph.Block().Preds[i]
+					fs := append(append([]Fact(nil), FactsAtBlock(pr)...), edgeOnlyFacts(pr, ph.Block())...)
+					if FieldLoad(fTC)(e) {
+						if _, h := hasFact(fs, NotNil(FieldLoad(fTC))); h {
+							nF++
+						}
+					} else if CallRes(Callee(creds, "Bundle.TransportCredentials"), 0)(e) {
+						if _, h := hasFact(fs, IsNil(FieldLoad(fTC))); h {
+							nB++
+						}
+					}
+				}
+				okSel = nF == 1 && nB == 1
+			}
+			c.Expect(okSel, ci, f, "inspects-the-credentials-in-effect", "the security protocol is read from credentials other than 'explicit transport credentials, else the bundle's'")
+		}
+		c.NoEarlyExit(f, FieldLoad(c.field(tr, "ConnectOptions", "PerRPCCredentials")), "every-per-rpc-credential-asked")
 		nc := c.fn("grpc", "NewClient")
 		ok := IsNil(CallRes(Callee("grpc", "ClientConn.validateTransportCredentials"), 0))
 		for _, r := range successReturns(nc, 1) {
